@@ -291,6 +291,10 @@ namespace ip {
 			if (p.buffer.empty()) break;
 		}
 
+		// whatever did not fit in the caller's buffers is discarded along with
+		// the packet, and no longer occupies the receive buffer
+		m_queue_size -= int(p.buffer.size());
+
 		m_incoming_queue.erase(m_incoming_queue.begin());
 		return read;
 	}
